@@ -5,7 +5,7 @@ import GluonModel.Lemmas.MimeScan
 
 namespace Gluon.Mime
 
-theorem emptyInfo_not_message : (emptyInfo.mimeType == MESSAGE && emptyInfo.sub == RFC822) = false := by
+theorem emptyInfo_not_message : isMsgOf emptyInfo = false := by
   decide
 
 theorem mapE_struct_ok (env : HdrEnv) (det : HdrDetail) (lit : Bytes) (fuel : Nat)
@@ -49,8 +49,7 @@ theorem structCalls_ok (env : HdrEnv) (det : HdrDetail) (lit : Bytes) :
       rw [goSlice_ok _ _ _ h3 h4]
       simp only
       have hemb : ∃ ec, embCalls (structCalls env det lit fuel) env det lit s
-          ((detOf det ((lit.drop s.header).take (s.body - s.header))).mimeType == MESSAGE &&
-            (detOf det ((lit.drop s.header).take (s.body - s.header))).sub == RFC822) = .ok ec := by
+          (isMsgOf (detOf det ((lit.drop s.header).take (s.body - s.header)))) = .ok ec := by
         unfold embCalls
         split
         · next hmsg =>
